@@ -39,6 +39,8 @@ class Log:
         self.rules = {}     # rule -> count
         self.notes = []
         self.undecided = {}  # fn key -> reason: the function's body could not be put under its contract (never an alarm)
+        self.uncontracted = []      # (relpath, fn name) of every bodied free/inherent repo function without a sidecar contract
+        self.uncontracted_new = []  # ... those not in contracts/uncontracted_baseline.json that could not be inlined (R-inline)
 
     def rule(self, name, detail=None):
         self.rules[name] = self.rules.get(name, 0) + 1
@@ -505,8 +507,141 @@ def indent_of(text, pos):
     return m.group(0)
 
 
+# ---------------------------------------------------------------- R-inline
+
+_BASELINE = None
+
+
+def uncontracted_baseline():
+    global _BASELINE
+    if _BASELINE is None:
+        import json, os
+        p = os.path.join(os.path.dirname(os.path.dirname(os.path.abspath(__file__))), 'contracts', 'uncontracted_baseline.json')
+        _BASELINE = set(tuple(x) for x in json.load(open(p))['entries']) if os.path.exists(p) else set()
+    return _BASELINE
+
+
+def _is_inherent_or_free(text, msk, f):
+    if f.block is None:
+        return True
+    if f.block.kind != 'impl':
+        return False
+    hdr = msk[f.block.header_start:f.block.open]
+    return re.search(r'\bfor\b', hdr) is None
+
+
+def rule_inline_helpers(text, fspec, log, relpath):
+    """R-inline: a bodied free / inherent function of the repository text that has no contract in the sidecar and is not in
+    contracts/uncontracted_baseline.json is a helper added since the contracts were written (e.g. "extract function").  Its callers
+    are checked against the callee's CONTRACT, and it has none -- so the call is replaced by the callee's body, mechanically:
+        f(a0, a1)   ==>   { let __gv_a0 = a0; let __gv_a1 = a1; let p0: T0 = __gv_a0; let p1: T1 = __gv_a1; BODY }
+    (arguments are evaluated first, left to right, in the caller's scope; the block keeps the helper's locals from leaking).
+    Only for helpers without `return`, `?`, recursion, generics or pattern parameters, and only at plain call sites
+    (`f(..)`, `Self::f(..)`, `Type::f(..)`, `self.f(..)`).  A helper that cannot be inlined is recorded in log.uncontracted_new:
+    a failed obligation in a function that calls it is reported as undecided (exit 2), never as a violation."""
+    base = uncontracted_baseline()
+    for _round in range(16):
+        msk = rs.mask(text)
+        blocks = find_blocks(text, msk)
+        fns = find_fns(text, msk, blocks)
+        cands = []
+        for f in fns:
+            if not f.has_body or not _is_inherent_or_free(text, msk, f):
+                continue
+            if f.key in fspec.fns or f.key in fspec.drops:
+                continue
+            if any(f.item_start >= g.body_open and f.body_close <= g.body_close for g in fns if g is not f and g.has_body):
+                continue  # nested fn
+            if MARK.search(text[rs.line_start(text, f.fn_pos):rs.line_end(text, f.fn_pos)]) is None:
+                continue  # not repository text
+            if _round == 0:
+                log.uncontracted.append((relpath, f.name))
+            if (relpath, f.name) in base:
+                continue
+            cands.append(f)
+        if not cands:
+            return text
+        f = cands[0]
+        why = None
+        body_m = msk[f.body_open + 1:f.body_close]
+        sig_m = msk[f.fn_pos:f.params_open]
+        params_t = strip_markers(text[f.params_open + 1:f.params_close])
+        if re.search(r'\breturn\b', body_m) or '?' in body_m:
+            why = 'body uses return / ?'
+        elif re.search(r'\b%s\b' % re.escape(f.name), body_m):
+            why = 'recursive'
+        elif '<' in sig_m:
+            why = 'generic'
+        params = [p.strip() for p in rs.split_top_commas(params_t) if p.strip()]
+        has_self = bool(params) and re.match(r"^(&\s*('\w+\s+)?(mut\s+)?)?(mut\s+)?self$", params[0]) is not None
+        plain = params[1:] if has_self else params
+        pinfo = []
+        for p_ in plain:
+            pm = re.match(r'^(mut\s+)?(\w+)\s*:\s*(.+)$', p_, re.S)
+            if not pm or pm.group(2) == '_':
+                why = why or 'pattern parameter'
+                break
+            pinfo.append((pm.group(1) or '', pm.group(2), pm.group(3).strip()))
+        if has_self and re.search(r'\bself\b', params[0]) and not params[0].strip().startswith('&') and params[0].strip() != 'self':
+            why = why or 'self by mut value'
+        # call sites
+        sites = []
+        if why is None:
+            for m in re.finditer(r'\b%s\s*\(' % re.escape(f.name), msk):
+                if f.fn_pos <= m.start() <= f.body_close:
+                    continue
+                if re.search(r'\bfn\s+$', msk[max(0, m.start() - 8):m.start()]):
+                    continue
+                opn = m.end() - 1
+                cls = rs.match_close(msk, opn)
+                pre = msk[:m.start()]
+                pm = re.search(r'((?:\bSelf|\b[A-Z]\w*)\s*::\s*|\bself\s*\.\s*)$', pre)
+                start = m.start()
+                recv_self = False
+                if pm:
+                    start = pm.start()
+                    recv_self = pm.group(1).strip().startswith('self')
+                elif re.search(r'(\.|::)\s*$', pre):
+                    why = 'call through a receiver/path that is not self/Self/Type'
+                    break
+                if recv_self != has_self:
+                    why = 'receiver form does not match the signature'
+                    break
+                args = [a for a in rs.split_top_commas(text[opn + 1:cls]) if strip_markers(a).strip()]
+                if len(args) != len(pinfo):
+                    why = 'argument count'
+                    break
+                sites.append((start, cls + 1, args))
+            # any other mention (function value, path) blocks the rule
+            n_mentions = len([1 for m in re.finditer(r'\b%s\b' % re.escape(f.name), msk) if not (f.fn_pos <= m.start() <= f.body_close)])
+            if why is None and n_mentions != len(sites):
+                why = 'mentioned other than in a plain call'
+        if why is not None or not sites:
+            if why is not None:
+                log.uncontracted_new.append(f.name)
+                log.rule('R-inline', '%s: NOT inlined (%s)' % (f.key, why))
+                base = base | {(relpath, f.name)}
+                continue
+            base = base | {(relpath, f.name)}   # never called in this unit: nothing to do
+            continue
+        body_t = text[f.body_open + 1:f.body_close]
+        is_unsafe = re.search(r'\bunsafe\s+$', msk[max(0, f.fn_pos - 12):f.fn_pos]) is not None
+        edits = []
+        for (st, en, args) in sites:
+            pre = ''.join('let __gv_a%d = %s; ' % (i, strip_markers(a).strip()) for i, a in enumerate(args))
+            pre += ''.join('let %s%s: %s = __gv_a%d; ' % (mu, nm, ty, i) for i, (mu, nm, ty) in enumerate(pinfo))
+            rep = '{ ' + pre + body_t + ' }'
+            edits.append((st, en - st, rep))
+        text = apply_edits(text, edits)
+        log.rule('R-inline', '%s: %d call site(s) replaced by the body%s' % (f.key, len(sites), ' (unsafe fn)' if is_unsafe else ''))
+        base = base | {(relpath, f.name)}
+    return text
+
+
+
 def apply_contracts(text, fspec, log, relpath, unwind=None):
     """Insert sidecar contracts into `text` (already rewritten by the other rules)."""
+    text = rule_inline_helpers(text, fspec, log, relpath)
     msk = rs.mask(text)
     blocks = find_blocks(text, msk)
     fns = find_fns(text, msk, blocks)
